@@ -15,6 +15,7 @@ package main
 import (
 	"bytes"
 	"encoding/base64"
+	"encoding/json"
 	"encoding/hex"
 	"fmt"
 	"mime"
@@ -25,6 +26,7 @@ import (
 	"elaverif/harness/hx"
 
 	"github.com/elastos/Elastos.ELA/common/config"
+	"github.com/elastos/Elastos.ELA/pow"
 	"github.com/elastos/Elastos.ELA/servers"
 	"github.com/elastos/Elastos.ELA/servers/httpjsonrpc"
 	"github.com/elastos/Elastos.ELA/utils/http/jsonrpc"
@@ -98,13 +100,13 @@ var handlers = map[string]func(servers.Params) map[string]interface{}{
 	"getnodestate": servers.GetNodeState,
 }
 
-func callHandler(h func(servers.Params) map[string]interface{}) (res map[string]interface{}, panicked bool) {
+func callHandler(h func(servers.Params) map[string]interface{}, params servers.Params) (res map[string]interface{}, panicked bool) {
 	defer func() {
 		if e := recover(); e != nil {
 			panicked = true
 		}
 	}()
-	return h(servers.Params{}), false
+	return h(params), false
 }
 
 func exec(t []string) string {
@@ -136,11 +138,16 @@ func exec(t []string) string {
 		default:
 			panic("harness: unknown server " + t[1])
 		}
+		// the dispatcher's answer in the body means the request was served — whatever the status line says
+		reached := strings.Contains(rec.Body.String(), "verif-no-such-method not found")
 		if rec.Code == 200 {
-			if strings.Contains(rec.Body.String(), "verif-no-such-method not found") {
+			if reached {
 				return "served"
 			}
 			return "200-unexpected-body"
+		}
+		if reached {
+			return fmt.Sprintf("%d-but-served", rec.Code)
 		}
 		return fmt.Sprint(rec.Code)
 	case "gate":
@@ -149,7 +156,14 @@ func exec(t []string) string {
 			panic("harness: unknown method " + t[1])
 		}
 		servers.ChainParams = &config.Configuration{RPCServiceLevel: us(t[2])}
-		res, panicked := callHandler(h)
+		params := servers.Params{}
+		if len(t) > 3 { // optional parameters: hex of a JSON object
+			if err := json.Unmarshal(hx.UnHex(t[3]), &params); err != nil {
+				panic("harness: bad params " + err.Error())
+			}
+			servers.Pow = new(pow.Service) // not started: Halt() returns at once
+		}
+		res, panicked := callHandler(h, params)
 		if !panicked && fmt.Sprint(res["Result"]) == "requesting method if out of service level" {
 			return "refused"
 		}
@@ -172,7 +186,7 @@ var rank = map[string]int{"ConfigurationPermitted": 0, "MiningPermitted": 1, "Tr
 func oracle(t []string, out string) *hx.Violation {
 	switch t[0] {
 	case "http":
-		if out != "served" {
+		if !strings.HasSuffix(out, "served") {
 			return nil
 		}
 		remote, wl, user, pass, auth := us(t[2]), list(t[4]), us(t[5]), us(t[6]), list(t[7])
@@ -312,6 +326,12 @@ func gen(g *hx.Gen) {
 		for _, l := range levels {
 			g.Emit("gate %s %s", m, hs(l))
 		}
+	}
+	// with arguments that take the handler past its parameter parsing (only where that is harmless in a harness)
+	for _, l := range levels {
+		g.Emit("gate togglemining %s %s", hs(l), hs(`{"mining":false}`))
+		g.Emit("gate estimatesmartfee %s %s", hs(l), hs(`{"confirmations":3}`))
+		g.Emit("gate help %s %s", hs(l), hs(`{"x":1}`))
 	}
 }
 
